@@ -228,6 +228,7 @@ def index(ev: Ev, base, idx, node):
                 ev.require(False, "KeyError", node)
             if k is None:
                 ev.unsupported(node, "non-constant key into a concrete-key dict")
+            undeclared_read(ev, o, k, node)
             if k in o.items and o.items[k] is not ABSENT:
                 v = o.items[k]
                 if isinstance(v, Maybe):
@@ -392,6 +393,7 @@ def contains(ev: Ev, container, item, node):
                         alts.append(z3.And(item.t == z3.StringVal(kk), p))
                     return z3.Or(alts + [z3.BoolVal(False)])
                 ev.unsupported(node, "`in` with non-constant key on a concrete-key dict")
+            undeclared_read(ev, o, k, node)
             if k not in o.items or o.items[k] is ABSENT:
                 return z3.BoolVal(False)
             vv = o.items[k]
